@@ -5,12 +5,40 @@ import json, sys
 ALL = ["C%02d" % i for i in range(1, 41)]
 
 # id -> (category, technique, level text, level note, design ref, engine)
+H = "mc-history"
 CHECKS = {
- "C02": ("model_checking",
-         "explicit-state BFS over real replicas vs independent op-set interpreter",
+ "C01": ("model_checking", "explicit-state BFS over real replicas + exhaustive delivery permutations, confluence on op-column bytes",
+         "Exhaustive BFS over histories of 2-3 real replicas within edit/merge budgets; in every state both directions of every pairwise merge agree in reads and op-column bytes, and for every distinct change set reached every permutation x {one-at-a-time, redelivery, batch, batch with duplicate, every 2-block split, load_incremental} plus merge/load/save_after/bundle/sync ingestion must produce the same document (reads + op columns). States reached by different paths with equal heads are compared on reads and op columns (confluence).",
+         "Bounds: <=3 replicas, <=3 edits each, permutations complete up to 4 (quick) / 6 (thorough) new changes. Trusted: harness chunk parser that cuts the op-column section out of save_nocompress().",
+         "DESIGN.md §4 C01", H),
+ "C02": ("model_checking", "explicit-state BFS over real replicas vs independent op-set interpreter",
          "Exhaustive BFS over all histories of 2-3 real Automerge replicas within the stated edit/merge budgets (5 themes x 3 base documents); in every reachable state the public-read observation of every replica and every pairwise merge must equal an independent op-based CRDT interpreter fed only by Change::decode. Every execution is the implementation itself, so there is no model-conformance gap.",
          "Trusted: Change::decode exposes the ops of a change faithfully (cross-checked by C10/C18); the ~400-line reference interpreter; bounds: <=3 replicas, <=3 edits per replica, themes explored separately.",
-         "DESIGN.md §4 C02", "mc-history"),
+         "DESIGN.md §4 C02", H),
+ "C07": ("model_checking", "explicit-state BFS; every consistent cut of every reached history; *_at reads vs fork_at differential + reference interpreter",
+         "For every distinct document the history explorer reaches and every causally closed head set (all consistent cuts above the base, plus cuts through the base, plus a 40-change chain crossing the clock-cache step): fork_at(H) has heads H, holds exactly ancestors(H), equals the reference interpreter on them, and every *_at(H) read equals the plain read on the fork.",
+         "Head sets are derived by the harness from Change::deps(); capped per document (16 quick / 64 thorough).",
+         "DESIGN.md §4 C07", H),
+ "C10": ("model_checking", "explicit-state BFS; per-document exhaustive have-set enumeration; harness SHA-256 over chunk grammar",
+         "For every distinct document reached: every retrieval API returns changes that are single change chunks whose harness-computed SHA-256 is their hash, byte-identical to the first-seen bytes of that hash in any replica; get_changes(have) for every consistent cut and every pair of hashes equals all minus ancestors(have), dependency ordered; stable across fork and save/load.",
+         "SHA-256 collision resistance; ancestors computed by the harness.",
+         "DESIGN.md §4 C10", H),
+ "C11": ("model_checking", "explicit-state BFS; save/load differential over all option combinations and encodings",
+         "Every distinct document reached (replicas, merges, documents holding queued orphans, B3 with DEFLATEd columns, 4 text encodings) x {deflate} x {retain_orphans}: load(save) equal in reads, change bytes, historical reads at every consistent cut, pending queue; save(load(save)) byte-identical.",
+         "Encoding is supplied to the loader (not stored in the file).",
+         "DESIGN.md §4 C11", H),
+ "C18": ("model_checking", "explicit-state BFS + exhaustive subset enumeration for bundles + enumerated hand-built expanded changes",
+         "Every change of every document reached round-trips through raw bytes, compressed bytes and decode/encode with the same hash; every subset (<=5) of new changes bundles to byte-identical changes and loads like apply_changes; ~2.2k hand-built expanded changes (actions x scalar extremes x key/pred shapes) encode/decode/reload.",
+         "Hand-built changes stay inside documented ranges.",
+         "DESIGN.md §4 C18", H),
+ "C32": ("model_checking", "explicit-state BFS; export vs winners projection; length-contract-enforcing serializer",
+         "Every distinct document reached is exported with serde_json and with a harness Serializer that fails if a container writes a different number of entries than announced; both equal the winners-only projection built from keys/length/get_all/text.",
+         "Projection uses get_all(last) not get().",
+         "DESIGN.md §4 C32", H),
+ "C40": ("model_checking", "explicit-state BFS; migrating load vs slot-by-slot walk + reference interpreter for the no-op case",
+         "Every distinct document reached (strings in maps, lists, nested objects, conflicts, tombstones) is saved and loaded with ConvertToText; slot-by-slot: slots with visible strings hold exactly one text with the highest-id string, all other slots unchanged with the same ids, no visible string remains, heads unchanged when the reference finds no visible string anywhere.",
+         "No claim about unreachable objects; Table outside the alphabet.",
+         "DESIGN.md §4 C40", H),
 }
 
 NOT_YET = "check not built yet in this round (planned: see DESIGN.md §4); not claimed"
